@@ -237,6 +237,8 @@ pub struct SupSpec {
     pub root: Vec<u8>,
     pub rules: Vec<Rule>,
     pub sched: Sched,
+    /// further roots whose paths are interesting too (e.g. a second sandbox on another filesystem)
+    pub extra_roots: Vec<Vec<u8>>,
     /// keep events on runtime paths (/proc, libs, ...) in the log
     pub log_all: bool,
     pub extra_env: Vec<(String, String)>,
@@ -642,8 +644,9 @@ impl Sup {
     }
 
     fn interesting(&self, p: &Option<Vec<u8>>) -> bool {
+        let under = |p: &Vec<u8>, r: &Vec<u8>| p.starts_with(r) && (p.len() == r.len() || p[r.len()] == b'/');
         match p {
-            Some(p) => p.starts_with(&self.spec.root) && (p.len() == self.spec.root.len() || p[self.spec.root.len()] == b'/'),
+            Some(p) => under(p, &self.spec.root) || self.spec.extra_roots.iter().any(|r| under(p, r)),
             None => false,
         }
     }
